@@ -356,6 +356,19 @@ func oracleC05(op string, args []string) string {
 			return "FAIL known type with its body present: " + err.Error()
 		}
 		return "pass"
+	case "enc2":
+		if len(args) != 6 {
+			return skip
+		}
+		got := safely(func() string { return opEnc2(args) })
+		alone := safely(func() string { return opEnc(args[:4]) })
+		if got == "bad-op" || alone == "bad-op" {
+			return skip
+		}
+		if got != alone {
+			return "FAIL a Message that also holds another body encodes differently from the body its header names: " + got + " (alone: " + alone + ")"
+		}
+		return "pass"
 	case "dec2":
 		// a Message that is decoded into twice (same family): exactly the body named by the second input, as from a fresh Message
 		got := opDec2(args)
